@@ -1,4 +1,5 @@
 import GB.C04.Refine
+import GB.C04.StageOracle
 import GB.C04.WF
 import GB.C04.B64
 import GB.Generated.Facts
@@ -521,6 +522,79 @@ theorem C04_refines_body_error (sch : Schema) (orc : Oracle) (root : MsgDesc) (b
 example :
     srcsOf exSchema exRoot (allCalls exSchema exRoot ⟨wildcard⟩ ⟨[([97], [55])], [([98], [[121]])]⟩) = some [⟨[[97]], exFa, [[55]]⟩]
     ∧ leafParse exSchema exNoOracle exFa [[55]] = .ok (.scalar (.int 7) true) := by
+  decide
+
+/-! ## the executable oracle of the differential run IS the declarative specification (round 5)
+
+  `stageExpect` (GB/C04/StageOracle.lean) is what the driver judges every case inside the hypotheses of
+  `C04_refines` by (branch suffix `-thm`): computed from descriptors and request alone — body-stage message, then
+  `applyWrite` of every call's parsed values, no walk through `populateGo`, no `Mutable`. The three theorems below
+  replace "both are checked on every case" by a proof, for every schema, body, path-parameter list and query:
+  defined exactly on the theorem's domain; an accepting answer is a message satisfying `StageSpec`, `StageSpec`
+  determines the populated leaves uniquely, and `transcode` accepts with exactly these leaves; a rejecting answer is
+  `transcode`'s rejection with the same error. Requests through oneof members / with overlapping keys stay outside
+  (`stageExpect = none`; judged by `expect`, `frameOK`, `mustFail` as before). -/
+
+/-- the oracle speaks exactly on the domain of `C04_refines` -/
+theorem C04_stage_oracle_defined (sch : Schema) (orc : Oracle) (root : MsgDesc) (bd : Binding) (dec : Dec) (rq : Request) :
+    (∃ r, stageExpect sch orc root bd dec rq = some r) ↔
+      ∃ srcs, srcsOf sch root (allCalls sch root bd rq) = some srcs ∧ Unrelated srcs := by
+  constructor
+  · rintro ⟨r, h⟩
+    obtain ⟨srcs, hs, hu, _⟩ := stageExpect_some h
+    exact ⟨srcs, hs, hu⟩
+  · rintro ⟨srcs, hs, hu⟩
+    exact stageExpect_defined sch orc root bd dec rq srcs hs hu
+
+/-- an accepting answer `l` of the oracle: `l` satisfies `StageSpec` over the body-stage message and the request's
+    sources; every message satisfying `StageSpec` has the populated leaves of `l`; the model of the code accepts
+    with exactly the populated leaves of `l`. -/
+theorem C04_stage_oracle_accepts (sch : Schema) (orc : Oracle) (root : MsgDesc) (bd : Binding) (dec : Dec) (rq : Request) (l : Msg)
+    (h : stageExpect sch orc root bd dec rq = some (.ok l)) :
+    ∃ m0 srcs m, bodyStage sch root bd dec = .ok m0
+        ∧ srcsOf sch root (allCalls sch root bd rq) = some srcs ∧ Unrelated srcs
+        ∧ StageSpec sch orc m0 srcs l
+        ∧ (∀ m', StageSpec sch orc m0 srcs m' → ∀ q, lget m' q = lget l q)
+        ∧ transcode sch orc root bd dec rq = .ok m ∧ (∀ q, lget m q = lget l q) :=
+  stageExpect_ok sch orc root bd dec rq l h
+
+/-- a rejecting answer of the oracle is the code's rejection, same error (first value in call order that does not
+    parse, or the body stage's error) -/
+theorem C04_stage_oracle_rejects (sch : Schema) (orc : Oracle) (root : MsgDesc) (bd : Binding) (dec : Dec) (rq : Request) (e : Err)
+    (h : stageExpect sch orc root bd dec rq = some (.error e)) : transcode sch orc root bd dec rq = .error e :=
+  stageExpect_error sch orc root bd dec rq e h
+
+/-- conversely, whatever `transcode` answers inside the domain is what the oracle says (so a case judged OK against
+    `stageExpect` is a case in which the implementation produced the `StageSpec` message) -/
+theorem C04_stage_oracle_complete (sch : Schema) (orc : Oracle) (root : MsgDesc) (bd : Binding) (dec : Dec) (rq : Request)
+    (srcs : List Src) (hs : srcsOf sch root (allCalls sch root bd rq) = some srcs) (hu : Unrelated srcs) :
+    (∀ m, transcode sch orc root bd dec rq = .ok m →
+        ∃ l, stageExpect sch orc root bd dec rq = some (.ok l) ∧ ∀ q, lget m q = lget l q)
+    ∧ (∀ e, transcode sch orc root bd dec rq = .error e → stageExpect sch orc root bd dec rq = some (.error e)) := by
+  obtain ⟨r, hr⟩ := stageExpect_defined sch orc root bd dec rq srcs hs hu
+  constructor
+  · intro m hm
+    cases r with
+    | error e => rw [stageExpect_error sch orc root bd dec rq e hr] at hm; simp at hm
+    | ok l =>
+      obtain ⟨_, _, m2, _, _, _, _, _, hm2, hl⟩ := stageExpect_ok sch orc root bd dec rq l hr
+      rw [hm] at hm2
+      cases hm2
+      exact ⟨l, hr, hl⟩
+  · intro e he
+    cases r with
+    | error e' =>
+      rw [stageExpect_error sch orc root bd dec rq e' hr] at he
+      cases he
+      exact hr
+    | ok l =>
+      obtain ⟨_, _, m2, _, _, _, _, _, hm2, _⟩ := stageExpect_ok sch orc root bd dec rq l hr
+      rw [he] at hm2; simp at hm2
+
+/-- non-vacuity: body "*" = {a: 1, b: "x"}, path variable a=7: the oracle accepts with a = 7 over the body, b kept -/
+example :
+    stageExpect exSchema exNoOracle exRoot ⟨wildcard⟩ exBodyAB ⟨[([97], [55])], [([98], [[121]])]⟩
+      = some (.ok [([[97]], .single (.int 7)), ([[98]], .single (.bytes [120]))]) := by
   decide
 
 /-! ## the per-field clauses for every kind of leaf (list, map, wrapper / well-known type, scalar) -/
